@@ -167,6 +167,11 @@ type vc06Server struct {
 	// tcpDown makes the TCP side close the connection instead of replying.
 	dup, tcpDown bool
 
+	// tcpDup makes the TCP side write every framed reply twice: the second
+	// frame stays unread on the client's pooled connection.  udpTC makes the
+	// UDP side mark every reply as truncated, which sends the client to TCP.
+	tcpDup, udpTC bool
+
 	pc net.PacketConn
 	ln net.Listener
 	wg sync.WaitGroup
@@ -200,10 +205,15 @@ func vc06StartServer(t *testing.T) (s *vc06Server) {
 			}
 
 			if r := s.get(buf[:n]); r != nil {
-				_, _ = s.pc.WriteTo(r, addr)
 				s.mu.Lock()
-				dup := s.dup
+				dup, tc := s.dup, s.udpTC
 				s.mu.Unlock()
+				if tc && len(r) > 2 {
+					r = append([]byte(nil), r...)
+					r[2] |= 0x02
+				}
+
+				_, _ = s.pc.WriteTo(r, addr)
 				if dup {
 					_, _ = s.pc.WriteTo(r, addr)
 				}
@@ -261,6 +271,15 @@ func vc06StartServer(t *testing.T) (s *vc06Server) {
 					if _, werr := c.Write(out); werr != nil {
 						return
 					}
+
+					s.mu.Lock()
+					again := s.tcpDup
+					s.mu.Unlock()
+					if again {
+						if _, werr := c.Write(out); werr != nil {
+							return
+						}
+					}
 				}
 			}()
 		}
@@ -295,6 +314,13 @@ func (s *vc06Server) setFaults(dup, tcpDown bool) {
 	defer s.mu.Unlock()
 
 	s.dup, s.tcpDown = dup, tcpDown
+}
+
+func (s *vc06Server) setHandlerFaults(tcpDup, udpTC bool) {
+	s.mu.Lock()
+	defer s.mu.Unlock()
+
+	s.tcpDup, s.udpTC = tcpDup, udpTC
 }
 
 func (s *vc06Server) close() {
